@@ -362,6 +362,7 @@ def stack_tie(ctx, model, cfg, A, res, rng):
     if any(r.get("RA") is None or not r["ok"] for r in rs):
         return
     wl = [leaf_wire_pq(r, D.is_complex(o.input_dtype), D.is_complex(o.output_dtype)) for o, r in zip(ch, rs)]
+    res = dict(res, tol=max([res.get("tol", D.TOL64)] + [r.get("tol", D.TOL64) for r in rs]))  # least precise operand
     diff = compare_model(model, wl, T.wire_tree(node), res, D.is_complex(A.input_dtype), D.is_complex(A.output_dtype))
     ctx.count("stack-model-tie:" + cfg["cls"])
     if diff is not None:
@@ -402,6 +403,9 @@ def derived_tie(ctx, model, cfg, A, res):
         ctx.count("derived-model-tie:skipped real<->complex operand")
         return  # real->complex operands: only the basis-pair obligations (Re<.,.>) are evaluated
     wl = [leaf_wire_pq(r, D.is_complex(o.input_dtype), D.is_complex(o.output_dtype)) for o, r in zip(ch, rs)]
+    # operands of mixed precision (complex128 - complex64 of the closed-form classes): the measured 32-bit operand limits
+    # the precision of the comparison
+    res = dict(res, tol=max([res.get("tol", D.TOL64)] + [r.get("tol", D.TOL64) for r in rs]))
     diff = compare_model(model, wl, T.wire_tree(node), res, D.is_complex(A.input_dtype), D.is_complex(A.output_dtype))
     ctx.count("derived-model-tie:" + form)
     if diff is not None:
@@ -432,6 +436,12 @@ def classify_known(ctx, model, cfg, A, res, view=None):
             b = G.build(cfg["b"])
         # MatrixOperator(A) @ B builds the composite without the dtype check of ComposedLinearOperator
         if type(a).__name__ == "MatrixOperator" and np.dtype(a.input_dtype) != np.dtype(b.output_dtype):
+            return KNOWN_MIXED
+        # A @ B through a REAL intermediate space with complex outer spaces (B = (real->complex operator).H): the
+        # composite is declared complex->complex but is only real-linear; the identity holds in Re<.,.> (no `adjoint`
+        # tag: theorem C01_derived_re), the complex identity cannot hold for any adjoint
+        if (tags <= {"eval-clinear", "adj-clinear"} and not D.is_complex(a.input_dtype) and not D.is_complex(b.output_dtype)
+                and D.is_complex(a.output_dtype) and D.is_complex(b.input_dtype)):
             return KNOWN_MIXED
     return None
 
